@@ -439,9 +439,16 @@ def do_op(o, live, tmpdir, counter):
             parts = []
             n0 = a.dataset[lead[0]].shape[0]
             order = [(o["q"] + 5 * j) % n0 for j in range(N)]
+            how = ["getitem", "isel", "sel"][(o["p"] // 6) % 3]
             for i in order:
                 item = (i,) + (slice(None),) * (len(a.dims) - 1)
-                parts.append(a[item])
+                if how == "getitem":
+                    parts.append(a[item])
+                elif how == "isel":
+                    parts.append(a.isel(**{lead[0]: i}))
+                else:
+                    parts.append(a.sel(**{lead[0]: a.dataset[lead[0]].values[i]}))
+            info["params"]["parts_by"] = how
         else:
             order = [0] * N
             parts = [a.copy() for _ in range(N)]
@@ -449,8 +456,14 @@ def do_op(o, live, tmpdir, counter):
                 pt.dataset["time"] = pt.dataset["time"] + np.timedelta64(j, "h")
         info["params"].update({"N": N, "order": order})
         single = all(not lead_dims(pt) for pt in parts)
+        cdim = "time"
+        if single and lead:
+            # single spectra may be stacked along any of the point dimensions; what identifies each input
+            # (its time, position, depth) must come back with element j whatever the stacking dimension
+            cdim = ["time", "latitude", "longitude", "depth"][(o["q"] // 7) % 4]
+        info["params"]["dim"] = cdim
         if single:
-            r = concatenate_spectra(parts, dim="time")
+            r = concatenate_spectra(parts, dim=cdim)
         else:
             r = concatenate_spectra(parts)
         info["params"]["mode"] = "time" if single else "flatten"
